@@ -162,12 +162,15 @@ def native_replay(cases, all_h, tags, race=False):
         cmd.append("./ecs")
         r = subprocess.run(cmd, cwd=REPO, env=env, capture_output=True, text=True)
         res = {}
+        race_seen = "DATA RACE" in r.stdout or "DATA RACE" in r.stderr
         for line in r.stdout.splitlines():
             if line.startswith("VREPLAY {"):
                 d = json.loads(line[len("VREPLAY "):])
                 res[d["i"]] = d
         if len(res) != len(cases):
             return {"error": "native replay run failed", "stdout": r.stdout[-3000:], "stderr": r.stderr[-3000:]}
+        for d in res.values():
+            d["race"] = race_seen
         return [res[i] for i in range(len(cases))]
     finally:
         shutil.rmtree(tmp, ignore_errors=True)
@@ -207,6 +210,8 @@ def confirms(v, nat):
         return v["label"] in (nat.get("failed") or [])
     if v["kind"] == "panic":
         return bool(nat.get("panic"))
+    if v["kind"] == "race":
+        return bool(nat.get("race"))
     return False
 
 
@@ -299,6 +304,16 @@ def main():
         ws = [w for w in witnesses if w["tags"] == tags]
         maxw = conf.get("max_witness_replays", 40)
         ws = ws[:maxw]
+        race_vs = [v for v in vs if v["kind"] == "race"]
+        vs = [v for v in vs if v["kind"] != "race"]
+        for v in race_vs:  # one -race run per violation, the scenario repeated to give the detector a chance
+            natr = native_replay([{"harness": v["harness"], "values": v["values"]}] * 30, all_h, tags, race=True)
+            replays += 1
+            if isinstance(natr, dict):
+                inconclusive.append("native -race replay failed to run: " + natr.get("stderr", "")[-800:])
+                continue
+            v["native"] = {"race": natr[0].get("race"), "runs": len(natr)}
+            (confirmed if confirms(v, natr[0]) else unconfirmed).append(v)
         cases = [{"harness": v["harness"], "values": v["values"]} for v in vs] + \
                 [{"harness": w["harness"], "values": w["values"]} for w in ws]
         if not cases:
